@@ -17,6 +17,8 @@ From TS Require Proofs.C15_PythonFile.
 From TS Require Import Spec.C15RenderKtSc.
 From TS Require Proofs.C15_KotlinFile.
 From TS Require Proofs.C15_ScalaFile.
+From TS Require Import Model.MultiFile Spec.C15MultiSpec.
+From TS Require Model.Writer Proofs.C10Multi Proofs.C15Multi Proofs.C15MultiWitness Proofs.C15MultiMore.
 Import ListNotations.
 From TS Require Props.C15.
 
@@ -562,3 +564,128 @@ Goal forall (uc : unicode) (cfg : sc_config),
     c15_contained C15sc LCode (mark (c15_file_pieces C15sc parts)) = true.
 Proof. exact Props.C15.C15_sc_file_line_free. Qed.
 Print Assumptions Props.C15.C15_sc_file_line_free.
+Goal forall (uc : unicode) (cfg : ts_config),
+  c15_mappings_plain C15ts (ts_type_mappings cfg) = true ->
+  forall (st : ts_state) (im : scoped) pd text (st' : ts_state),
+  c15_no_star (ts_version cfg) = true ->
+  forallb (c15_item_plain C15ts TypeScript (fun n => str_to_uppercase uc (to_snake_case uc n))) (items_of pd) = true ->
+  forallb c15_ts_item_keys_ok (items_of pd) = true ->
+  c15_ts_imports_ok im = true ->
+  Proofs.C15_TypeScript.ts_state_ok st = true ->
+  ts_generate_multi uc cfg st im pd = Ok (text, st') ->
+  exists items trailer parts,
+    topsort (items_of pd) = Ok items /\ Permutation items (items_of pd) /\
+    (trailer = [] \/ trailer = c15_ts_trailer_docs) /\
+    text = text_of (c15_file_pieces C15ts parts) /\
+    docs_of (c15_file_pieces C15ts parts) = map c15_esc_ts (flat_map c15_item_docs items ++ trailer) /\
+    c15_contained C15ts LCode (mark (c15_file_pieces C15ts parts)) = true /\
+    Proofs.C15_TypeScript.ts_state_ok st' = true.
+Proof. exact Props.C15.C15_ts_multi_file. Qed.
+Print Assumptions Props.C15.C15_ts_multi_file.
+Goal forall (uc : unicode) (cfg : kt_config),
+  c15_plain C15kt (kt_prefix cfg) = true ->
+  c15_mappings_plain C15kt (kt_type_mappings cfg) = true ->
+  c15_plain C15kt (kt_package cfg) = true ->
+  c15_version_nested_ok (kt_version cfg) = true ->
+  forall (c : str) (im : scoped) pd text,
+  forallb (c15_item_strict C15kt Kotlin) (items_of pd) = true ->
+  c15_plain C15kt c = true -> c15_kt_imports_ok im = true ->
+  kt_generate_multi uc cfg c im pd = Ok text ->
+  exists items parts,
+    topsort (items_of pd) = Ok items /\ Permutation items (items_of pd) /\
+    text = text_of (c15_file_pieces C15kt parts) /\
+    docs_of (c15_file_pieces C15kt parts) = flat_map c15_item_docs_helpers_first items /\
+    c15_contained C15kt LCode (mark (c15_file_pieces C15kt parts)) =
+    forallb safe_kt (flat_map c15_item_docs_helpers_first items).
+Proof. exact Props.C15.C15_kt_multi_file. Qed.
+Print Assumptions Props.C15.C15_kt_multi_file.
+Goal forall (uc : unicode) (cfg : kt_config),
+  c15_plain C15kt (kt_prefix cfg) = true ->
+  c15_mappings_plain C15kt (kt_type_mappings cfg) = true ->
+  c15_plain C15kt (kt_package cfg) = true ->
+  c15_version_nested_ok (kt_version cfg) = true ->
+  forall (c : str) (im : scoped) pd text,
+  forallb (c15_item_strict C15kt Kotlin) (items_of pd) = true ->
+  Forall (fun it => Forall (fun d => safe_line eol_lf_cr d = true) (c15_item_docs it)) (items_of pd) ->
+  c15_plain C15kt c = true -> c15_kt_imports_ok im = true ->
+  kt_generate_multi uc cfg c im pd = Ok text ->
+  exists items parts,
+    topsort (items_of pd) = Ok items /\ Permutation items (items_of pd) /\
+    text = text_of (c15_file_pieces C15kt parts) /\
+    docs_of (c15_file_pieces C15kt parts) = flat_map c15_item_docs_helpers_first items /\
+    c15_contained C15kt LCode (mark (c15_file_pieces C15kt parts)) = true.
+Proof. exact Props.C15.C15_kt_multi_file_line_free. Qed.
+Print Assumptions Props.C15.C15_kt_multi_file_line_free.
+Goal forall (uc : unicode) (cfg : ts_config) (plan : list out_plan) files fin,
+  c15_mappings_plain C15ts (ts_type_mappings cfg) = true -> c15_no_star (ts_version cfg) = true ->
+  Proofs.C15Multi.c15_ts_plan_ok uc plan = true ->
+  generate_crates (fun st (_ : str) im pd => ts_generate_multi uc cfg st im pd) [] plan = (files, fin) ->
+  forall f text, In (f, Model.Writer.Generated text) files ->
+    exists parts, text = text_of (c15_file_pieces C15ts parts) /\
+                  c15_contained C15ts LCode (mark (c15_file_pieces C15ts parts)) = true.
+Proof. exact Props.C15.C15_ts_multi_run. Qed.
+Print Assumptions Props.C15.C15_ts_multi_run.
+Goal forall (uc : unicode) (cfg : kt_config) (plan : list out_plan) files fin,
+  c15_plain C15kt (kt_prefix cfg) = true -> c15_mappings_plain C15kt (kt_type_mappings cfg) = true ->
+  c15_plain C15kt (kt_package cfg) = true -> c15_version_nested_ok (kt_version cfg) = true ->
+  Proofs.C15Multi.c15_kt_plan_ok plan = true ->
+  Forall (fun p => Forall (fun it => Forall (fun d => safe_line eol_lf_cr d = true) (c15_item_docs it)) (items_of (op_data p))) plan ->
+  generate_crates (fun (st : unit) c im pd => Proofs.C10Multi.wrap_unit st (kt_generate_multi uc cfg c im pd)) tt plan = (files, fin) ->
+  forall f text, In (f, Model.Writer.Generated text) files ->
+    exists parts, text = text_of (c15_file_pieces C15kt parts) /\
+                  c15_contained C15kt LCode (mark (c15_file_pieces C15kt parts)) = true.
+Proof. exact Props.C15.C15_kt_multi_run. Qed.
+Print Assumptions Props.C15.C15_kt_multi_run.
+Goal forall (uc : unicode) (cfg : sw_config),
+  c15_sw_raw (sw_prefix cfg) = true ->
+  c15_mappings_plain C15sw (sw_type_mappings cfg) = true ->
+  forallb (c15_plain C15sw) (sw_default_decorators cfg) = true ->
+  forallb (c15_plain C15sw) (sw_default_generic_constraints cfg) = true ->
+  c15_sw_version_ok (sw_version cfg) = true ->
+  forall (st : sw_state) pd text (st' : sw_state),
+  forallb c15_sw_item_ok (items_of pd) = true ->
+  sw_generate_multi uc cfg st pd = Ok (text, st') ->
+  exists items parts,
+    topsort (items_of pd) = Ok items /\ Permutation items (items_of pd) /\
+    text = text_of (c15_file_pieces C15sw parts) /\
+    docs_of (c15_file_pieces C15sw parts) = flat_map (c15_sw_item_docs uc) items /\
+    c15_contained C15sw LCode (mark (c15_file_pieces C15sw parts)) =
+    forallb safe_sw (flat_map (c15_sw_item_docs uc) items).
+Proof. exact Props.C15.C15_sw_multi_file. Qed.
+Print Assumptions Props.C15.C15_sw_multi_file.
+Goal forall (uc : unicode), unicode_ok uc -> forall (cfg : go_config),
+  c15_go_mappings_ok (go_type_mappings cfg) = true ->
+  forallb (forallb is_ascii) (go_uppercase_acronyms cfg) = true ->
+  c15_plain C15go (go_package cfg) = true ->
+  forall (st : go_state) pd text (st' : go_state),
+  forallb c15_go_item_ok (items_of pd) = true -> Proofs.C15_GoFile.go_inv st ->
+  go_generate_multi uc cfg st pd = Ok (text, st') ->
+  let header := if go_no_version_header cfg then []
+                else [lit "Code generated by typeshare " ++ go_version cfg ++ lit ". DO NOT EDIT."] in
+  exists items parts,
+    topsort (items_of pd) = Ok items /\ Permutation items (items_of pd) /\
+    text = text_of (c15_file_pieces C15go parts) /\
+    docs_of (c15_file_pieces C15go parts) = header ++ flat_map c15_item_docs_helpers_first items /\
+    c15_contained C15go LCode (mark (c15_file_pieces C15go parts)) =
+    forallb safe_go (header ++ flat_map c15_item_docs_helpers_first items) /\
+    Proofs.C15_GoFile.go_inv st'.
+Proof. exact Props.C15.C15_go_multi_file. Qed.
+Print Assumptions Props.C15.C15_go_multi_file.
+Goal forall (uc : unicode), unicode_ok uc -> forall (cfg : py_config),
+  c15_mappings_plain C15py (py_type_mappings cfg) = true ->
+  c15_py_version_ok (py_version cfg) = true ->
+  forall (st : py_state) pd text (st' : py_state),
+  forallb c15_py_item_ok (items_of pd) = true ->
+  forallb c15_py_item_typevars_ok (items_of pd) = true ->
+  Proofs.C15_PythonFile.pyf_inv st ->
+  py_generate_multi uc cfg st pd = Ok (text, st') ->
+  let header := if py_no_version_header cfg then [] else [c15_py_header_line (py_version cfg)] in
+  exists items parts,
+    topsort (items_of pd) = Ok items /\ Permutation items (items_of pd) /\
+    text = text_of (c15_file_pieces C15py parts) /\
+    docs_of (c15_file_pieces C15py parts) = header ++ map (c15_site_text C15py) (flat_map c15_py_item_sites items) /\
+    c15_contained C15py LCode (mark (c15_file_pieces C15py parts)) =
+      forallb (c15_site_ok C15py) (flat_map c15_py_item_sites items) /\
+    Proofs.C15_PythonFile.pyf_inv st'.
+Proof. exact Props.C15.C15_py_multi_file. Qed.
+Print Assumptions Props.C15.C15_py_multi_file.
